@@ -37,8 +37,8 @@ SPEC = dict(
           "defined types of primitive kind (time.Duration style) as parameter and result, two non-functions) + every function of the generated stdlib (enumerated from GetStdlibSymbols) x all "
           "argument vectors over a 27-value universe {null,true,false,0,-1,1,1.5,127,128,255,256,2^31,2^53,1e300,NaN,"
           "'','a','1',[],[1],{},{'a':1},an ECAL function,-129,-0.5,2^63,-Inf}: Run called directly for length <=2 "
-          "(quick) / <=3 (thorough) exhaustively and longer sampled, through the interpreter and inside try for "
-          "length <=1 / <=2 exhaustively and longer sampled. Compared: outcome class (value / the function's own "
+          "(quick) / <=3 (thorough) exhaustively and 3 / 4,5 sampled, through the interpreter (arguments as ECAL literals "
+          "where one exists) and inside try (arguments in variables) for length <=2 exhaustively and 3 (thorough: 3 and 4) sampled. Compared: outcome class (value / the function's own "
           "error / bridge error / escaped panic), the returned value (float64 bits, canonical structure), and the "
           "Go values the function RECEIVED (kind + exact integer). Non-trivial = the call reaches the function body."),
     exhaustive="all argument vectors up to the stated length for every function",
